@@ -53,20 +53,26 @@ OpenOnly(fo) ==
         ELSE \E c \in {New(Len(hist) + 1, 0), Absent, fs[0]} : fs' = [fs EXCEPT ![0] = c]
      /\ Log([op |-> "open_only", n |-> 0, fo |-> fo, ok |-> ~blocked])
   /\ UNCHANGED <<phase, fs0>>
+\* a save request that is invalid for reasons of its own (an option the format does not take, data the format cannot hold):
+\* it is refused whatever is on disk, and with force_overwrite=False nothing that exists may change
+BadSave == /\ phase = "run" /\ Len(hist) < D /\ NoMaybe
+           /\ fs' = fs /\ Log([op |-> "bad_save", n |-> 1, fo |-> FALSE, ok |-> FALSE])
+           /\ UNCHANGED <<phase, fs0>>
 ReadOp(entry) == /\ phase = "run" /\ Len(hist) < D /\ NoMaybe /\ Loadable(fs[0]) /\ ~(fs[0][1] = "new" /\ fs[0][3] % 100 = 0)
                  /\ UNCHANGED <<fs, phase, fs0>> /\ Log([op |-> entry, n |-> 0, fo |-> FALSE, ok |-> TRUE])
 Next == \/ Setup
         \/ \E n \in {1, NF}, fo \in BOOLEAN : WriteOp("save", n, fo)
         \/ \E fo \in BOOLEAN : WriteOp("open_w", 1, fo)
         \/ \E fo \in BOOLEAN : OpenOnly(fo)
+        \/ BadSave
         \/ \E e \in {"load", "load_frame", "iterload", "open_r", "load_topology"} : ReadOp(e)
 Spec == Init /\ [][Next]_vars
 \* ---- properties -------------------------------------------------------------------
 Step == hist'[Len(hist')]
 Acted == hist' # hist
-IsWrite(s) == s.op \in {"save", "open_w", "open_only"}
+IsWrite(s) == s.op \in {"save", "open_w", "open_only", "bad_save"}
 NoClobber == [][Acted /\ IsWrite(Step) /\ ~Step.fo => \A f \in Files : (fs[f] # Absent /\ fs[f] # Maybe) => fs'[f] = fs[f]]_vars
-RefusedIffExists == [][Acted /\ IsWrite(Step) /\ ~Step.fo =>
+RefusedIffExists == [][Acted /\ IsWrite(Step) /\ Step.op # "bad_save" /\ ~Step.fo =>
                         (Step.ok <=> \A f \in Targets(Step.n) : fs[f] = Absent)]_vars   \* (histories do not continue after a refusal that left Maybe files)
 FullReplace == [][Acted /\ Step.op \in {"save", "open_w"} /\ Step.fo =>
                    /\ Step.ok
